@@ -64,6 +64,17 @@ class OriginFeat:
     def __len__(self):
         return self.M
 
+    # the origin's own summaries (as H5ScalarEvent offers them): over ALL of
+    # its events
+    def min(self):
+        return At("origin-min-of-all-events", 0)
+
+    def max(self):
+        return At("origin-max-of-all-events", 0)
+
+    def mean(self):
+        return At("origin-mean-of-all-events", 0)
+
     def __getitem__(self, k):
         if isinstance(k, slice):
             if k == slice(None):
@@ -143,6 +154,23 @@ def run_proxy(eng, p):
         eng.prove(z3.BoolVal(len(got) == bb - aa), "proxy[a:b] length")
         for j, g in zip(range(aa, bb), got):
             expect(eng, g, bm[j], "proxy[a:b][j-a] == origin[map[j]]")
+    elif acc == "summary":
+        # C20: a reported minimum / maximum / mean must be that of the
+        # MAPPED events; the origin's own summary (over all its events) is
+        # only right when the map is a permutation of all origin events
+        perm = z3.And([M.e == k] + [bm[i].e != bm[j].e for i in range(k)
+                                    for j in range(i + 1, k)])
+        for name in ("min", "max", "mean"):
+            try:
+                fn = getattr(feat, name)
+            except AttributeError:
+                eng.reach()
+                continue           # not offered: numpy reduces the data
+            r = fn()
+            if isinstance(r, At) and str(r.src).startswith("origin-"):
+                eng.prove(perm, "proxy.%s(): the origin's summary over ALL "
+                          "its events is reported for the mapped events"
+                          % name)
     elif acc == "mask":
         bits = [eng.bool("m%d" % j) for j in range(k)]
         got = list(feat[SArr(bits, bool)])
@@ -480,8 +508,9 @@ def cases(tier, seed):
     for k in range(1, kmax + 1):
         for scalar in (True, False):
             for warm in ((False, True) if scalar else (False,)):
-                for acc in ("int", "whole", "array", "slice", "mask"):
-                    if not scalar and acc == "mask":
+                for acc in ("int", "whole", "array", "slice", "mask",
+                            "summary"):
+                    if not scalar and acc in ("mask", "summary"):
                         continue
                     if k == kmax and acc in ("slice", "mask") and \
                             tier == "quick":
@@ -563,6 +592,17 @@ def replay(case, params, v):
                     elif acc == "slice":
                         a, b = int(vals.get("a", 0)), int(vals.get("b", k))
                         got, want = norm(feat[a:b]), exp[a:b]
+                    elif acc == "summary":
+                        # make sure the map does not cover the extremes
+                        got, want = [], []
+                        for nm, fn in (("min", np.min), ("max", np.max),
+                                       ("mean", np.mean)):
+                            if hasattr(feat, nm):
+                                got.append(float(getattr(feat, nm)()))
+                            else:
+                                got.append(float(fn(feat)))
+                            want.append(float(fn(exp)))
+                        got, want = np.array(got), np.array(want)
                     else:
                         m = np.array([bool(vals.get("m%d" % j, False))
                                       for j in range(k)])
